@@ -47,7 +47,7 @@ TEXT = ['alpha', 'beta', ' ', 'line\n', 'x', 'yz\n', '...']
 
 def shards(tier):
     q = tier == 'quick'
-    return [{'kind': 'run', 'n': 50 if q else 400} for _ in range(16)]
+    return [{'kind': 'run', 'n': 50 if q else 400} for _ in range(16)] + [{'kind': 'delayed', 'n': 60 if q else 1500} for _ in range(4)]
 
 
 @st.composite
@@ -368,8 +368,78 @@ class _Method(object):
         return _conv_ret(self.r.method(d), self.conv)
 
 
+# ---------------------------------------------------------------------------
+# a parent that is held up at a chosen point of the read path
+
+@st.composite
+def delayed_cases(draw):
+    """The child prints a few pieces with short pauses and exits; the parent is held up just before its k-th
+    liveness check until the child has gone (as if it had been descheduled there), so that the last output is
+    written, and the child dies, between two consecutive system calls of one read."""
+    n = draw(st.integers(1, 4))
+    return {'kind': 'delayed', 'text_mode': draw(st.booleans()),
+            'prints': [''.join(draw(st.lists(st.sampled_from(TEXT), min_size=1, max_size=4))) for _ in range(n)],
+            'gaps': [draw(st.sampled_from([0.0, 0.02, 0.15])) for _ in range(n)],
+            'exit': draw(st.sampled_from([0, 3, 77])), 'arm': draw(st.integers(1, 4)),
+            'use_poll': draw(st.booleans())}
+
+
+def check_delayed(case, col=None):
+    from pexpect import pty_spawn
+    text_mode = case['text_mode']
+    conv = (lambda x: x) if text_mode else (lambda x: x.encode('utf-8'))
+    actions = []
+    for g, p in zip(case['gaps'], case['prints']):
+        if g:
+            actions.append(['s', g])
+        actions.append(['w', p.encode('utf-8').hex()])
+    actions.append(['exit', case['exit']])
+    ps = peers.PeerScript(actions, raw=False, ready=None, record=False)
+    calls = [0]
+    held = [False]
+    orig = pty_spawn.spawn.isalive
+
+    def isalive(self):
+        calls[0] += 1
+        if calls[0] == case['arm'] and not self.terminated:
+            held[0] = True
+            try:
+                os.waitid(os.P_PID, self.pid, os.WEXITED | os.WNOWAIT)      # wait for the death without reaping
+            except (OSError, AttributeError):
+                pass
+        return orig(self)
+    pty_spawn.spawn.isalive = isalive
+    try:
+        kw = {'echo': False, 'use_poll': case['use_poll']}
+        if text_mode:
+            kw['encoding'] = 'utf-8'
+        with guard('run() with a parent held up before liveness check %d' % case['arm'], allow=()):
+            out, status = pexpect.run(' '.join(ps.argv), timeout=10, withexitstatus=True, **kw)
+    finally:
+        pty_spawn.spawn.isalive = orig
+        ps.cleanup()
+    want = conv(''.join(case['prints']).replace('\n', '\r\n'))
+    if out != want:
+        raise Violation('run-output', 'run() returned %d characters, the child printed %d before it exited (the parent was held up '
+                        'just before liveness check %d until the child had gone): got %r, expected %r'
+                        % (len(out), len(want), case['arm'], out[-40:], want[-40:]))
+    if status != case['exit']:
+        raise Violation('run-status', 'run(withexitstatus=True) returned status %r, the child exits with %d' % (status, case['exit']))
+    if col is not None:
+        col.label('delayed-parent')
+        if held[0]:
+            col.label('parent-held-before-liveness-check')
+        col.case(case, held[0])
+
+
 def run_shard(spec, seed, idx, deadline_ts):
     col = Collector()
+    if spec.get('kind') == 'delayed':
+        def dbody(case, c):
+            with case_watchdog(60, 'C12 run() with a delayed parent'):
+                check_delayed(case, c)
+        run_batches(dbody, delayed_cases(), spec['n'], seed * 1000 + idx, col, batch=40, shrink=False, deadline_ts=deadline_ts)
+        return col
 
     def body(case, c):
         with case_watchdog(60, 'C12 run() dialogue'):
@@ -379,6 +449,8 @@ def run_shard(spec, seed, idx, deadline_ts):
 
 
 def replay(case, spec=None):
+    if case.get('kind') == 'delayed':
+        return check_delayed(case)
     check_case(case)
 
 
